@@ -9,7 +9,8 @@ def sh(cmd, cwd=None, env=None, timeout=1800):
 
 def main():
     mod, var = sys.argv[1], sys.argv[2]
-    wt = f"/tmp/wt/R_{mod}"
+    rebased = "--rebased" in sys.argv   # a refactoring re-applied on a later HEAD by a sub-agent (worktree /tmp/wt/RB_<mod>)
+    wt = f"/tmp/wt/RB_{mod}" if rebased else f"/tmp/wt/R_{mod}"
     sd = f"{wt}/SEED/{var}"
     env = dict(os.environ, PYTHONPATH=wt)
     sh("git checkout -- websocket", cwd=wt)
@@ -22,15 +23,21 @@ def main():
     sh("git checkout -- websocket", cwd=wt)
     dst = f"/verif/seeded/refactor-{mod}-{var}"
     os.makedirs(dst, exist_ok=True)
-    for f in ("patch.diff", "diff_check.py", "meta.json"):
-        if os.path.exists(f"{sd}/{f}"):
-            shutil.copy(f"{sd}/{f}", f"{dst}/{f}")
+    if rebased:
+        shutil.copy(f"{sd}/patch.diff", f"{dst}/patch.rebased.diff")
+        if os.path.exists(f"{sd}/diff_check.py"):
+            shutil.copy(f"{sd}/diff_check.py", f"{dst}/diff_check.rebased.py")
+    else:
+        for f in ("patch.diff", "diff_check.py", "meta.json"):
+            if os.path.exists(f"{sd}/{f}"):
+                shutil.copy(f"{sd}/{f}", f"{dst}/{f}")
     rc, o = sh("git status --porcelain", cwd="/repo")
     if o.strip():
         print("/repo dirty"); return 2
-    rc, o = sh(f"git apply {dst}/patch.diff", cwd="/repo")
+    pfile = f"{dst}/patch.rebased.diff" if rebased else f"{dst}/patch.diff"
+    rc, o = sh(f"git apply {pfile}", cwd="/repo")
     if rc:
-        rc, o = sh(f"patch -p1 -F3 -s --no-backup-if-mismatch -i {dst}/patch.diff", cwd="/repo")
+        rc, o = sh(f"patch -p1 -F3 -s --no-backup-if-mismatch -i {pfile}", cwd="/repo")
         if rc:
             sh("git checkout -- .", cwd="/repo"); print("patch does not apply to /repo"); return 2
     res = {}
@@ -44,6 +51,13 @@ def main():
         sh("git checkout -- .", cwd="/repo")
         sh("git checkout -- evidence", cwd="/verif")
     meta = json.load(open(f"{dst}/meta.json")) if os.path.exists(f"{dst}/meta.json") else {}
+    if rebased:
+        rc_h, head = sh("git log --format=%h -1", cwd="/repo")
+        meta["rebased_base"] = head.strip()
+        try:
+            meta["rebased_note"] = json.load(open(f"{sd}/meta.json")).get("notes", "")
+        except Exception:
+            pass
     meta["evaluation"] = {"suite_with_patch": m.group(0) if m else o[-100:], "diff_check_rc": rc_d, "alarms": res, "silent": not res}
     json.dump(meta, open(f"{dst}/meta.json", "w"), indent=1)
     print(mod, var, "suite", m.group(0) if m else "?", "diff_check", rc_d, "ALARMS" if res else "silent", json.dumps(res)[:1500])
